@@ -1,6 +1,7 @@
 import RModel.Model.History
 import RModel.Model.HistorySpec
 import RModel.Lemmas.History
+import RModel.Lemmas.HistoryStatus
 /- the invariant behind `C10.refines_spec_partial` and its preservation by every guarded command -/
 
 namespace History
@@ -120,6 +121,8 @@ structure Inv (ops : Ops Tree Plan Backup H) (w : World Tree Plan Backup H) (s :
   revForm : ∀ e ∈ w.entries, ∀ j c, e.id = .revert j c → e.revertOf = some j
   revOnly : ∀ e ∈ w.entries, ∀ j, e.revertOf = some j → ∃ c, e.id = .revert j c
   backupsIds : ∀ i, lookup w.backups i ≠ none → hasId w.entries i = true
+  /-- what the eligibility scans say about applied / undone (Lemmas/HistoryStatus.lean) -/
+  status : Status w.entries s
 
 theorem inv_init (ops : Ops Tree Plan Backup H) (t : Tree) (clock : Nat) :
     Inv ops (init t clock : World Tree Plan Backup H) ([] : Spec Tree H) where
@@ -128,22 +131,29 @@ theorem inv_init (ops : Ops Tree Plan Backup H) (t : Tree) (clock : Nat) :
   revForm := by intro e he; simp [init] at he
   revOnly := by intro e he; simp [init] at he
   backupsIds := by intro i h; simp [init, lookup] at h
+  status := by simpa [init] using (status_init : Status ([] : List (Entry H)) ([] : Spec Tree H))
 
 -- closed forms of the successful steps -------------------------------------------------------------------
 
 theorem applyWithId_ok (ops : Ops Tree Plan Backup H) (w : World Tree Plan Backup H) (id : EId H) (p : Plan)
     (t' : Tree) (b : Backup) (ha : ops.apply w.tree p = .ok t' b) (hf : hasId w.entries id = false)
     (hb : lookup w.backups id = none) :
-    applyWithId ops w id p =
+    applyWithId .current ops w id p =
       ({ clock := w.clock, tree := t', entries := w.entries ++ [{ id := id, revertOf := none }],
          plans := put w.plans id p, backups := put w.backups id b }, .ok) := by
   unfold applyWithId
-  simp [ha, addEntry, hf, hb]
+  simp [ha, addEntry, hf, hb, Cfg.current]
 
 theorem applyWithId_rejected (ops : Ops Tree Plan Backup H) (w : World Tree Plan Backup H) (id : EId H) (p : Plan)
-    (ha : ops.apply w.tree p = .rejected) : applyWithId ops w id p = (w, .rejected) := by
+    (ha : ops.apply w.tree p = .rejected) : applyWithId .current ops w id p = (w, .rejected) := by
   unfold applyWithId
   simp [ha]
+
+/-- c3d511b: an id that is already in the history is refused before anything is touched -/
+theorem applyWithId_dup (ops : Ops Tree Plan Backup H) (w : World Tree Plan Backup H) (id : EId H) (p : Plan)
+    (hd : hasId w.entries id = true) : applyWithId .current ops w id p = (w, .rejected) := by
+  unfold applyWithId
+  simp [hd, Cfg.current]
 
 theorem stepUndo_ineligible (ops : Ops Tree Plan Backup H) (w : World Tree Plan Backup H) (t : Target H) (i : EId H)
     (hr : resolve w.entries true t = some i) (he : undoEligible w.entries i = false) :
@@ -179,21 +189,23 @@ theorem stepUndo_ok (ops : Ops Tree Plan Backup H) (w : World Tree Plan Backup H
 
 theorem stepRedo_ineligible (ops : Ops Tree Plan Backup H) (w : World Tree Plan Backup H) (t : Target H) (i : EId H)
     (hr : resolve w.entries false t = some i) (he : redoEligible w.entries i = false) :
-    stepRedo ops w t = (w, .rejected) := by
+    stepRedo .current ops w t = (w, .rejected) := by
   unfold stepRedo
   simp only [hr]
   unfold redoEligible at he
   by_cases h1 : hasId w.entries i = true
-  · have h2 : hasRevertOf w.entries i = false := by simpa [h1] using he
-    simp [h1, h2]
+  · by_cases h2 : hasRevertOf w.entries i = true
+    · have h3 : hasRedoOf w.entries i = true := by simpa [h1, h2] using he
+      simp [h1, h2, h3, Cfg.current]
+    · simp [h1, h2]
   · simp [h1]
 
 theorem stepRedo_eligible (ops : Ops Tree Plan Backup H) (w : World Tree Plan Backup H) (t : Target H) (i : EId H)
     (p : Plan) (hr : resolve w.entries false t = some i) (h1 : hasId w.entries i = true)
-    (h2 : hasRevertOf w.entries i = true) (hp : lookup w.plans i = some p) :
-    stepRedo ops w t = applyWithId ops w (.redo i w.clock) p := by
+    (h2 : hasRevertOf w.entries i = true) (h3 : hasRedoOf w.entries i = false) (hp : lookup w.plans i = some p) :
+    stepRedo .current ops w t = applyWithId .current ops w (.redo i w.clock) p := by
   unfold stepRedo
-  simp [hr, h1, h2, hp]
+  simp [hr, h1, h2, h3, hp]
 
 -- preservation ---------------------------------------------------------------------------------------
 
@@ -202,21 +214,32 @@ variable [DecidableEq Tree]
 theorem inv_rename (ops : Ops Tree Plan Backup H) (w : World Tree Plan Backup H) (s : Spec Tree H) (se re : Bytes)
     (hI : Inv ops w s) (hG : G10 ops w s (.rename se re) = true) :
     Conforms ops w s (.rename se re) ∧
-      Inv ops (step ops w (.rename se re)).1 (specStep ops s w (.rename se re)) := by
-  have hstep : step ops w (.rename se re) = stepRename ops w se re := rfl
+      Inv ops (step .current ops w (.rename se re)).1 (specStep ops s w (.rename se re)) := by
+  have hstep : step .current ops w (.rename se re) = stepRename .current ops w se re := rfl
   by_cases he : ops.isEmpty (ops.scan w.tree se re) = true
-  · have heq : stepRename ops w se re = (w, .noop) := by unfold stepRename; simp [he]
+  · have heq : stepRename .current ops w se re = (w, .noop) := by unfold stepRename; simp [he]
     have hs : specStep ops s w (.rename se re) = s := by unfold specStep; simp [hstep, heq]
     rw [hs]
     refine ⟨?_, ?_⟩
     · unfold Conforms; simp [hstep, heq]
     · rw [hstep, heq]; exact hI
-  · have hG' : hasId w.entries (.plan (ops.hash (se ++ re) w.clock)) = false ∧
+  · by_cases hdup : hasId w.entries (.plan (ops.hash (se ++ re) w.clock)) = true
+    · -- the id is already there: refused before anything is touched
+      have heq : stepRename .current ops w se re = (w, .rejected) := by
+        unfold stepRename; simp [he, applyWithId_dup ops w _ _ hdup]
+      have hs : specStep ops s w (.rename se re) = s := by unfold specStep; simp [hstep, heq]
+      rw [hs]
+      refine ⟨?_, ?_⟩
+      · unfold Conforms; simp [hstep, heq]
+      · rw [hstep, heq]; exact hI
+    have hfresh : hasId w.entries (.plan (ops.hash (se ++ re) w.clock)) = false := by simpa using hdup
+    have hG' : hasId w.entries (.plan (ops.hash (se ++ re) w.clock)) = false ∧
         isPartly (ops.apply w.tree (ops.scan w.tree se re)) = false := by
-      simpa [G10, he] using hG
+      refine ⟨hfresh, ?_⟩
+      simpa [G10, he, hfresh] using hG
     cases ha : ops.apply w.tree (ops.scan w.tree se re) with
     | rejected =>
-      have heq : stepRename ops w se re = (w, .rejected) := by
+      have heq : stepRename .current ops w se re = (w, .rejected) := by
         unfold stepRename; simp [he, applyWithId_rejected ops w _ _ ha]
       have hs : specStep ops s w (.rename se re) = s := by unfold specStep; simp [hstep, heq]
       rw [hs]
@@ -231,7 +254,7 @@ theorem inv_rename (ops : Ops Tree Plan Backup H) (w : World Tree Plan Backup H)
         | some v =>
           have := hI.backupsIds (.plan (ops.hash (se ++ re) w.clock)) (by simp [hl])
           rw [hG'.1] at this; cases this
-      have heq : stepRename ops w se re =
+      have heq : stepRename .current ops w se re =
           ({ clock := w.clock, tree := t',
              entries := w.entries ++ [{ id := .plan (ops.hash (se ++ re) w.clock), revertOf := none }],
              plans := put w.plans (.plan (ops.hash (se ++ re) w.clock)) (ops.scan w.tree se re),
@@ -285,13 +308,14 @@ theorem inv_rename (ops : Ops Tree Plan Backup H) (w : World Tree Plan Backup H)
             exact hasId_append_new w.entries { id := .plan (ops.hash (se ++ re) w.clock), revertOf := none }
           · rw [lookup_put_other _ _ _ _ hii] at hi
             exact hasId_append _ _ _ (hI.backupsIds i hi)
+        · exact status_rename w.entries s hI.status _ w.tree t' hG'.1 hnew
 
 theorem inv_undo (ops : Ops Tree Plan Backup H) (hRT : RoundTrip ops) (w : World Tree Plan Backup H) (s : Spec Tree H)
     (t : Target H) (hI : Inv ops w s) (hG : G10 ops w s (.undo t) = true) :
-    Conforms ops w s (.undo t) ∧ Inv ops (step ops w (.undo t)).1 (specStep ops s w (.undo t)) := by
-  have hstep : step ops w (.undo t) = stepUndo ops w t := rfl
+    Conforms ops w s (.undo t) ∧ Inv ops (step .current ops w (.undo t)).1 (specStep ops s w (.undo t)) := by
+  have hstep : step .current ops w (.undo t) = stepUndo ops w t := rfl
   have rejected : stepUndo ops w t = (w, .rejected) →
-      Conforms ops w s (.undo t) ∧ Inv ops (step ops w (.undo t)).1 (specStep ops s w (.undo t)) := by
+      Conforms ops w s (.undo t) ∧ Inv ops (step .current ops w (.undo t)).1 (specStep ops s w (.undo t)) := by
     intro heq
     have hs : specStep ops s w (.undo t) = s := by unfold specStep; simp [hstep, heq]
     rw [hs]
@@ -306,8 +330,7 @@ theorem inv_undo (ops : Ops Tree Plan Backup H) (hRT : RoundTrip ops) (w : World
       cases hfs : find s i.root with
       | none => simp [G10, hr, hel, hfs] at hG
       | some o =>
-        have hG' : o.applied = true ∧ w.tree = o.post := by simpa [G10, hr, hel, hfs] using hG
-        obtain ⟨happ, htree⟩ := hG'
+        have htree : w.tree = o.post := by simpa [G10, hr, hel, hfs] using hG
         -- the implementation's view
         unfold undoEligible at hel
         cases hf : findEntry w.entries i with
@@ -325,6 +348,9 @@ theorem inv_undo (ops : Ops Tree Plan Backup H) (hRT : RoundTrip ops) (w : World
           have : o' = o := by cases ho'; rfl
           subst this
           rw [heid] at hp hb
+          -- an entry without a revert carries an applied operation: proved, not assumed
+          have happ : o'.applied = true :=
+            hI.status.unrevApplied e hemem h1 (by rw [heid]; exact hnorev) o' (by rw [heid]; exact hfs)
           have hv : ops.revert w.tree p b = .ok o'.pre := by rw [htree]; exact hRT _ _ _ _ hap
           have hd : hasId w.entries (.revert i w.clock) = false := by
             cases hh : hasId w.entries (.revert i w.clock) with
@@ -367,14 +393,15 @@ theorem inv_undo (ops : Ops Tree Plan Backup H) (hRT : RoundTrip ops) (w : World
               · subst he2; cases hrev2; exact ⟨_, rfl⟩
             · intro k hk
               exact hasId_append _ _ _ (hI.backupsIds k hk)
+            · exact status_undo w.entries s hI.status i w.clock e hemem heid h1 hnorev
     · exact rejected (stepUndo_ineligible ops w t i hr (by simpa using hel))
 
 theorem inv_redo (ops : Ops Tree Plan Backup H) (w : World Tree Plan Backup H) (s : Spec Tree H)
     (t : Target H) (hI : Inv ops w s) (hG : G10 ops w s (.redo t) = true) :
-    Conforms ops w s (.redo t) ∧ Inv ops (step ops w (.redo t)).1 (specStep ops s w (.redo t)) := by
-  have hstep : step ops w (.redo t) = stepRedo ops w t := rfl
-  have rejected : stepRedo ops w t = (w, .rejected) →
-      Conforms ops w s (.redo t) ∧ Inv ops (step ops w (.redo t)).1 (specStep ops s w (.redo t)) := by
+    Conforms ops w s (.redo t) ∧ Inv ops (step .current ops w (.redo t)).1 (specStep ops s w (.redo t)) := by
+  have hstep : step .current ops w (.redo t) = stepRedo .current ops w t := rfl
+  have rejected : stepRedo .current ops w t = (w, .rejected) →
+      Conforms ops w s (.redo t) ∧ Inv ops (step .current ops w (.redo t)).1 (specStep ops s w (.redo t)) := by
     intro heq
     have hs : specStep ops s w (.redo t) = s := by unfold specStep; simp [hstep, heq]
     rw [hs]
@@ -388,12 +415,10 @@ theorem inv_redo (ops : Ops Tree Plan Backup H) (w : World Tree Plan Backup H) (
     · cases hfs : find s i.root with
       | none => simp [G10, hr, hel, hfs] at hG
       | some o =>
-        have hG' : (o.applied = false ∧ w.tree = o.pre) ∧ hasId w.entries (.redo i w.clock) = false := by
-          simpa [G10, hr, hel, hfs] using hG
-        obtain ⟨⟨happ, htree⟩, hfresh⟩ := hG'
+        have htree : w.tree = o.pre := by simpa [G10, hr, hel, hfs] using hG
         unfold redoEligible at hel
         simp at hel
-        obtain ⟨hid, hrev⟩ := hel
+        obtain ⟨⟨hid, hrev⟩, hnoredo⟩ := hel
         obtain ⟨e, hemem, heid⟩ := (hasId_true_iff _ _).1 hid
         -- the addressed entry is not a revert: the abstract history has only plan ids as roots
         have h1 : e.revertOf = none := by
@@ -413,14 +438,23 @@ theorem inv_redo (ops : Ops Tree Plan Backup H) (w : World Tree Plan Backup H) (
         subst this
         rw [heid] at hp
         have ha : ops.apply w.tree p = .ok o'.post b := by rw [htree]; exact hap
+        -- reverted and not redone since: the operation is undone — proved, not assumed
+        have happ : o'.applied = false :=
+          hI.status.revUndone e hemem h1 (by rw [heid]; exact hrev) (by rw [heid]; exact hnoredo) o'
+            (by rw [heid]; exact hfs)
+        by_cases hdup : hasId w.entries (.redo i w.clock) = true
+        · -- same-second repetition: `redo-<id>-<sec>` is already there, refused before anything is touched
+          exact rejected ((stepRedo_eligible ops w t i p hr hid hrev hnoredo hp).trans
+            (applyWithId_dup ops w _ p hdup))
+        have hfresh : hasId w.entries (.redo i w.clock) = false := by simpa using hdup
         have hbk : lookup w.backups (.redo i w.clock) = none := by
           cases hl : lookup w.backups (.redo i w.clock) with
           | none => rfl
           | some v =>
             have := hI.backupsIds (.redo i w.clock) (by simp [hl])
             rw [hfresh] at this; cases this
-        have heq : stepRedo ops w t = _ :=
-          (stepRedo_eligible ops w t i p hr hid hrev hp).trans (applyWithId_ok ops w _ p _ b ha hfresh hbk)
+        have heq : stepRedo .current ops w t = _ :=
+          (stepRedo_eligible ops w t i p hr hid hrev hnoredo hp).trans (applyWithId_ok ops w _ p _ b ha hfresh hbk)
         have hs : specStep ops s w (.redo t) = setApplied s i.root true := by
           unfold specStep; simp [hstep, heq, hr]
         rw [hs]
@@ -464,12 +498,13 @@ theorem inv_redo (ops : Ops Tree Plan Backup H) (w : World Tree Plan Backup H) (
               exact hasId_append_new w.entries { id := .redo i w.clock, revertOf := none }
             · rw [lookup_put_other _ _ _ _ hkk] at hk
               exact hasId_append _ _ _ (hI.backupsIds k hk)
+          · exact status_redo w.entries s hI.status i w.clock e hemem heid h1 hrev hnoredo hfresh
     · exact rejected (stepRedo_ineligible ops w t i hr (by simpa using hel))
 
 /-- every guarded command conforms and keeps the invariant -/
 theorem inv_step (ops : Ops Tree Plan Backup H) (hRT : RoundTrip ops) (w : World Tree Plan Backup H) (s : Spec Tree H)
     (c : Cmd H) (hI : Inv ops w s) (hG : G10 ops w s c = true) :
-    Conforms ops w s c ∧ Inv ops (step ops w c).1 (specStep ops s w c) := by
+    Conforms ops w s c ∧ Inv ops (step .current ops w c).1 (specStep ops s w c) := by
   cases c with
   | rename se re => exact inv_rename ops w s se re hI hG
   | undo t => exact inv_undo ops hRT w s t hI hG
@@ -479,7 +514,7 @@ theorem inv_step (ops : Ops Tree Plan Backup H) (hRT : RoundTrip ops) (w : World
     have hs : specStep ops s w .tick = s := by unfold specStep; simp [step]
     rw [hs]
     exact { stored := hI.stored, roots := hI.roots, revForm := hI.revForm, revOnly := hI.revOnly,
-            backupsIds := hI.backupsIds }
+            backupsIds := hI.backupsIds, status := hI.status }
 
 theorem guarded_conform (ops : Ops Tree Plan Backup H) (hRT : RoundTrip ops) (cs : List (Cmd H)) :
     ∀ (w : World Tree Plan Backup H) (s : Spec Tree H), Inv ops w s → Guarded ops w s cs = true → AllConform ops w s cs := by
